@@ -2359,22 +2359,13 @@ class BaseDocReader(LogMixin):
             userMinimum = element.get("userminimum")
             userDefault = element.get("userdefault")
             userMaximum = element.get("usermaximum")
-            if (
-                userMinimum is not None
-                and userDefault is not None
-                and userMaximum is not None
-            ):
-                return self.rangeAxisSubsetDescriptorClass(
-                    name=name,
-                    userMinimum=float(userMinimum),
-                    userDefault=float(userDefault),
-                    userMaximum=float(userMaximum),
-                )
-            if all(v is None for v in (userMinimum, userDefault, userMaximum)):
-                return self.rangeAxisSubsetDescriptorClass(name=name)
-
-            raise DesignSpaceDocumentError(
-                "axis-subset element must have min/max/default values or none at all."
+            # each of the three is optional on its own (and is only written when
+            # it differs from the descriptor's default)
+            return self.rangeAxisSubsetDescriptorClass(
+                name=name,
+                userMinimum=float(userMinimum) if userMinimum is not None else -math.inf,
+                userDefault=float(userDefault) if userDefault is not None else None,
+                userMaximum=float(userMaximum) if userMaximum is not None else math.inf,
             )
 
     def readSources(self):
